@@ -6,6 +6,9 @@
 // that prefix has.  Defer::drop calls its closure once; that drop itself runs once per scope exit, in reverse order of creation and
 // also on unwinding, is Rust's Drop guarantee (ASSUMED[drop]).
 //@ prelude base errors iter
+// ASSUMED[peekable-next-if]: Peekable::next_if(p) pops and returns the front item iff p accepts it, otherwise returns None and leaves the iterator unchanged; peek / next / size_hint as documented
+// ASSUMED[callbacks-are-functions]: the predicate of take_while_p and the folding closure answer as functions of their arguments
+// ASSUMED[drop]: Rust runs Drop::drop exactly once when a value goes out of scope, in reverse order of declaration, also while unwinding
 
 // a predicate `FnMut(&T) -> bool` whose answer is a function of the item (ASSUMED[callbacks-are-functions])
 #[verifier::external_body]
